@@ -47,6 +47,20 @@ Definition new_sort_value (strict : bool) (v : val) : sortval :=
 Definition str_ltb (a b : str) : bool := match str_cmp a b with Lt => true | _ => false end.
 Definition is_kstr (k : option kform) : bool := match k with Some (KStr _) => true | _ => false end.
 
+(* compareIntegerWithFloat (sort_value.go, after the repair of int-float-beyond-2p53): the exact order of an
+   integer and a float that is not NaN; float64(integer) would round integers of more than 53 bits *)
+Definition cmp_int_float (i : Z) (f : float) : comparison :=
+  match Prim2SF f with
+  | S754_zero _ => Z.compare i 0
+  | S754_infinity s => if s then Gt else Lt
+  | S754_nan => Eq
+  | S754_finite s m e =>
+      let mz := if s then Z.neg m else Z.pos m in
+      if 0 <=? e then Z.compare i (mz * 2 ^ e) else Z.compare (i * 2 ^ (- e)) mz
+  end.
+Definition tern_of_cmp (c : comparison) : tern := match c with Lt => TT | Gt => TF | Eq => TU end.
+Definition cmp_is_eq (c : comparison) : bool := match c with Eq => true | _ => false end.
+
 (* SortValue.Less: TRUE / FALSE / UNKNOWN (= cannot decide, look at the next key) *)
 Definition sv_less1 (a b : sortval) : tern :=
   let strict_eq := match skey a, skey b with Some x, Some y => kform_eqb x y | _, _ => false end in
@@ -56,9 +70,10 @@ Definition sv_less1 (a b : sortval) : tern :=
   else
   match sty a, sty b with
   | TInt, TInt => if sint a =? sint b then TU else of_bool (sint a <? sint b)
-  | TInt, TFloat => if PrimFloat.eqb (sflt a) (sflt b) then TU else of_bool (PrimFloat.ltb (sflt a) (sflt b))
+  | TInt, TFloat => if is_nan (sflt b) then TF else tern_of_cmp (cmp_int_float (sint a) (sflt b))
   | TInt, TStr => of_bool (str_ltb (stxt a) (stxt b))
-  | TFloat, TInt | TFloat, TFloat =>
+  | TFloat, TInt => if is_nan (sflt a) then TF else tern_of_cmp (CompOpp (cmp_int_float (sint b) (sflt a)))
+  | TFloat, TFloat =>
       if is_nan (sflt a) || is_nan (sflt b) then
         (if is_nan (sflt a) && is_nan (sflt b) then TU else if is_nan (sflt a) then TF else TT)
       else if PrimFloat.eqb (sflt a) (sflt b) then TU
@@ -77,7 +92,8 @@ Definition sv_equiv1 (a b : sortval) : bool :=
     match sty a, sty b with
     | TInt, TInt | TInt, TBool | TBool, TBool | TBool, TInt => sint a =? sint b
     | TFloat, TFloat => (is_nan (sflt a) && is_nan (sflt b)) || PrimFloat.eqb (sflt a) (sflt b)
-    | TInt, TFloat | TFloat, TInt => PrimFloat.eqb (sflt a) (sflt b)
+    | TInt, TFloat => negb (is_nan (sflt b)) && cmp_is_eq (cmp_int_float (sint a) (sflt b))
+    | TFloat, TInt => negb (is_nan (sflt a)) && cmp_is_eq (cmp_int_float (sint b) (sflt a))
     | TDt, TDt => sdt a =? sdt b
     | TStr, TStr => str_eqb (stxt a) (stxt b)
     | TNull, TNull => true
